@@ -790,6 +790,7 @@ func (s *S3Proxy) PutObject(ctx context.Context, input s3response.PutObjectInput
 		WebsiteRedirectLocation:   input.WebsiteRedirectLocation,
 	}, s3.WithAPIOptions(
 		v4.SwapComputePayloadSHA256ForUnsignedPayloadMiddleware,
+		removeDefaultContentType,
 	))
 	if err != nil {
 		return s3response.PutObjectOutput{}, handleError(err)
